@@ -226,6 +226,34 @@ func (ex *Exec) registerStubs() {
 	I["(*os.File).Close"] = func(ex *Exec, st *State, _ *ssa.CallCommon, a []Value) []Outcome {
 		return ret1(st, IfaceV{})
 	}
+	// Stat on a ghost file: a FileInfo whose Size() is the ghost file's
+	// (symbolic) length; the other FileInfo methods are not modelled.
+	I["(*os.File).Stat"] = func(ex *Exec, st *State, _ *ssa.CallCommon, a []Value) []Outcome {
+		fp := a[0].(Ptr)
+		name, ok := st.fileName[fp.obj]
+		if !ok {
+			unsup("Stat on a file the stub did not open")
+		}
+		ex.assumes["(*os.File).Stat is a stub over the ghost file: FileInfo.Size() is its (symbolic) length"] = true
+		t := ex.prog.ImportedPackage("os").Type("fileStat").Type()
+		id := st.alloc(t, ex.zero(t), "fileinfo:"+name)
+		nn := map[int]string{}
+		for k, v := range st.fileName {
+			nn[k] = v
+		}
+		nn[id] = name
+		st.fileName = nn
+		return ret1(st, TupleV{IfaceV{typ: types.NewPointer(t), val: Ptr{obj: id}}, IfaceV{}})
+	}
+	I["(*os.fileStat).Size"] = func(ex *Exec, st *State, _ *ssa.CallCommon, a []Value) []Outcome {
+		fp := a[0].(Ptr)
+		name, ok := st.fileName[fp.obj]
+		if !ok {
+			unsup("Size of a FileInfo the stub did not create")
+		}
+		f, _ := ex.fileOf(st, name)
+		return ret1(st, f.length)
+	}
 	I["(*os.File).Read"] = func(ex *Exec, st *State, _ *ssa.CallCommon, a []Value) []Outcome {
 		fp := a[0].(Ptr)
 		buf := a[1].(SliceV)
